@@ -429,8 +429,8 @@ pub fn caller(plan: &BodyPlan, stop_on_block: bool) -> Observed {
     o
 }
 
-pub struct Ran {
-    pub observed: Option<Result<Observed, String>>,
+pub struct Ran<T = Observed> {
+    pub observed: Option<Result<T, String>>,
     pub history: History,
     pub sched_tape: Vec<u64>,
     pub seen: Seen,
@@ -438,12 +438,18 @@ pub struct Ran {
 
 /// Build the world for a body plan and run the caller.
 pub fn run(plan: &BodyPlan, ctx: &RunCtx, stop_on_block: bool) -> Ran {
+    run_origin(&plan.script, &plan.faults, ctx, || caller(plan, stop_on_block))
+}
+
+/// One origin at 10.0.0.1:80 (also reachable as origin.test) that answers every complete
+/// request with `script`; `f` is the caller program.
+pub fn run_origin<T>(script: &Script, faults: &ConnFaults, ctx: &RunCtx, f: impl FnOnce() -> T) -> Ran<T> {
     let sim = Sim::new(ctx.sim_config());
     let ip: IpAddr = HOST_IP.parse().unwrap();
     sim.add_host(HOST_NAME, vec![ip]);
     let seen = Arc::new(Mutex::new(Seen::default()));
-    let script = plan.script.clone();
-    let faults = plan.faults.clone();
+    let script = script.clone();
+    let faults = faults.clone();
     let seen2 = seen.clone();
     sim.add_listener(
         ip,
@@ -456,7 +462,7 @@ pub fn run(plan: &BodyPlan, ctx: &RunCtx, stop_on_block: bool) -> Ran {
             Box::new(p)
         })),
     );
-    let out = sim.run(|| caller(plan, stop_on_block));
+    let out = sim.run(f);
     let seen = seen.lock().unwrap().clone();
     Ran { observed: out.result, history: out.history, sched_tape: out.sched_tape, seen }
 }
